@@ -1,9 +1,11 @@
 package sim
 
 import (
+	"bytes"
 	"encoding/json"
 	"fmt"
 	"reflect"
+	"strings"
 
 	"github.com/mlange-42/arche/ecs"
 )
@@ -207,6 +209,7 @@ func (e *Engine) opDump(c *cursor) *Violation {
 	if err != nil {
 		return e.viol("dump-diff", nil, "dump does not marshal: %v", err)
 	}
+	js = reformatJSON(js, e.step)
 	var d2 ecs.EntityDump
 	if err := json.Unmarshal(js, &d2); err != nil {
 		return e.viol("dump-diff", nil, "dump does not unmarshal: %v", err)
@@ -220,6 +223,7 @@ func (e *Engine) opDump(c *cursor) *Violation {
 			break
 		}
 		b, _ := json.Marshal(me.H)
+		b = reformatJSON(b, e.step+i)
 		var h ecs.Entity
 		if err := json.Unmarshal(b, &h); err != nil || h != me.H {
 			return e.viol("dump-diff", nil, "handle %v does not survive the JSON round trip (%s)", me.H, b)
@@ -230,6 +234,7 @@ func (e *Engine) opDump(c *cursor) *Violation {
 			break
 		}
 		b, _ := json.Marshal(h)
+		b = reformatJSON(b, e.step+i+1)
 		var h2 ecs.Entity
 		if err := json.Unmarshal(b, &h2); err != nil || h2 != h {
 			return e.viol("dump-diff", nil, "handle %v does not survive the JSON round trip (%s)", h, b)
@@ -577,4 +582,24 @@ func (e *Engine) checkLoad(ls *Sys) *Violation {
 		e.St.Probes["load-twin-dumps-compared"]++
 	}
 	return nil
+}
+
+// reformatJSON returns the same JSON value in another legal spelling (the text a user's pretty-printer or another
+// program might have produced): compact, indented two ways, or padded with blanks.
+func reformatJSON(js []byte, k int) []byte {
+	var out bytes.Buffer
+	switch k % 4 {
+	case 1:
+		if json.Indent(&out, js, "", "  ") == nil {
+			return out.Bytes()
+		}
+	case 2:
+		if json.Indent(&out, js, " ", "\t") == nil {
+			return out.Bytes()
+		}
+	case 3:
+		r := strings.NewReplacer("[", "[ ", ",", " ,\r\n ", "]", " ]", ":", " : ")
+		return []byte(r.Replace(string(js)))
+	}
+	return js
 }
